@@ -82,6 +82,24 @@ def text_f64(txt):
     return -d if neg else d
 
 
+def text_f64_wide(txt):
+    """[s_c10] Scalar::to_f64 on [-]digits.digits for EVERY digit count: the digits (integer part and fraction, leading zeros
+    welcome) are accumulated in a u64 -- a 65th bit is a refusal --, at least one fraction digit, at most 22 of them (the table
+    POWER_OF_TEN), then (i as f64) / 10^k (`as f64` rounds to nearest even like float(int)); None = refused.  Numerals without a
+    point: text_f64"""
+    m = re.match(r"^(-?)([0-9]+)\.([0-9]*)$", txt)
+    if not m:
+        return text_f64(txt)
+    neg, ip, fp = m.group(1) == "-", m.group(2), m.group(3)
+    if fp == "" or len(fp) > 22:
+        return None
+    i = int(ip + fp)
+    if i >= 2 ** 64:
+        return None
+    d = float(i) / float(10 ** len(fp))
+    return -d if neg else d
+
+
 def f32_bits_of_f64(x):
     """`x as f32` (round to nearest even, overflow to infinity), as bits"""
     try:
@@ -353,6 +371,8 @@ def scalar_text(v):
     """the characters of the scalar as written in the text rendering (before quoting)"""
     t = v["t"]
     if t == "int":
+        if "txt" in v:                 # [s_c10] explicit numeral of the value v["v"] (zero padding: props/C10_sizes.py)
+            return v["txt"]
         return str(v["v"])
     if t == "bool":
         return "yes" if v["v"] else "no"
@@ -783,7 +803,7 @@ def expected_scalar_text(sh, v):
     if isinstance(sh, tuple) and sh[0] in ("u", "i"):
         if not re.match(r"^-?[0-9]+$", raw):
             raise SpecErr("de")
-        n = int(raw)
+        n = v["v"] if (t == "int" and "txt" in v) else int(raw)      # [s_c10] a zero-padded numeral of v["v"] (may have > 4300 digits)
         lim = (0, 2 ** 64) if sh[0] == "u" else (-2 ** 63, 2 ** 63)
         if not (lim[0] <= n < lim[1]) or not in_range(sh, n):
             raise SpecErr("de")
@@ -795,7 +815,7 @@ def expected_scalar_text(sh, v):
                 raise SpecErr("de")
             fr = Fraction(n)
         elif t == "float" and "txt" in v:          # [a_c10] explicit numeral
-            x = text_f64(v["txt"])
+            x = text_f64_wide(v["txt"]) if v.get("wide") else text_f64(v["txt"])      # [s_c10] wide: every digit count
             if x is None:
                 raise SpecErr("de")
             return "(f64 %016x)" % f64_bits(x) if sh == "f64" else "(f32 %08x)" % f32_bits_of_f64(x)
